@@ -68,6 +68,10 @@ def _case(draw, big):
         st.builds(lambda d, r: {"op": "heom", "depth": d, "rho": r}, st.integers(1, 2), st.integers(0, 1)),
         st.builds(lambda s, d: {"op": "eso", "slot": s, "dense": d}, st.integers(0, 1), st.sampled_from([1, 2])),
         st.just({"op": "elf"}),
+        # two Lindblad forms built from one shared system-bath interaction object, used inside or outside the
+        # eigenbasis of the Hamiltonian: identical inputs, identical dynamics
+        st.builds(lambda k, c, r: {"op": "lindprop", "form": k, "ctx": c, "rho": r}, st.integers(0, 1), st.booleans(),
+                  st.integers(0, 1)),
     )
     ops = draw(st.lists(op, min_size=4, max_size=10 if not big else 14))
     if draw(st.integers(0, 3)) > 0:
@@ -113,6 +117,15 @@ class Pool(object):
         self.svprop = None
         self.popprop = None
         self.rates = None          # rate matrix handed to the population propagator
+        # a Lindblad-type system-bath interaction shared by several Lindblad forms
+        from quantarhei.qm import SystemBathInteraction, Operator
+        ks = []
+        for a, b in ((1, min(2, self.n)), (min(2, self.n), 1)):
+            K = numpy.zeros((self.n + 1, self.n + 1))
+            K[a, b] = 1.0
+            ks.append(K)
+        self.lsbi = SystemBathInteraction([Operator(data=K) for K in ks], rates=(0.02, 0.01))
+        self.lforms = {}
         self.hier = {}             # depth -> (hierarchy, propagator)
 
     def fingerprint(self):
@@ -145,6 +158,7 @@ class Pool(object):
             fp["tensor%d.ham" % s] = _fp_array(hret._data)
         if self.rates is not None:
             fp["rates"] = _fp_array(self.rates.data)
+        fp["lindblad-sbi.KK"] = _fp_array(self.lsbi.KK)
         for d, (hy, pr) in self.hier.items():
             fp["hier%d" % d] = numpy.concatenate([numpy.asarray(hy.hinds, dtype=float).ravel(),
                                                   numpy.asarray(hy.nm1, dtype=float).ravel(),
@@ -202,7 +216,7 @@ def check_case(case, ctx):
         fresh = None
 
         def run():
-            nonlocal key, where
+            nonlocal key, where, fresh
             if kind == "tensor":
                 th, td, as_ops, sec = THEORIES[op["theory"]]
                 key = ("tensor", th, td, as_ops, sec)
@@ -317,6 +331,25 @@ def check_case(case, ctx):
                     pass
                 key = None
                 return None
+            if kind == "lindprop":
+                from quantarhei.qm import LindbladForm
+                k = op["form"]
+                if k not in pool.lforms:
+                    pool.lforms[k] = LindbladForm(pool.ham, pool.lsbi)
+                key = ("lindprop", op["rho"])           # which of the forms, and the basis in use, are not inputs
+                where = "lindblad-forms-sharing-sbi" + ("/in-context" if op["ctx"] else "")
+                rho = pool.rho_objs[op["rho"]]
+                if op["ctx"]:
+                    # both forms are used one after the other inside one context
+                    if 1 - k not in pool.lforms:
+                        pool.lforms[1 - k] = LindbladForm(pool.ham, pool.lsbi)
+                    with qr.eigenbasis_of(pool.ham):
+                        rt = ReducedDensityMatrixPropagator(pool.ta, pool.ham, pool.lforms[k]).propagate(rho)
+                        rt2 = ReducedDensityMatrixPropagator(pool.ta, pool.ham, pool.lforms[1 - k]).propagate(rho)
+                    fresh = numpy.array(rt2.data)      # compared with the returned result below
+                    return numpy.array(rt.data)
+                pr = ReducedDensityMatrixPropagator(pool.ta, pool.ham, pool.lforms[k])
+                return numpy.array(pr.propagate(rho).data)
             if kind == "look":
                 key = ("look", op["what"], op["units"])
                 where = "look/" + op["what"]
@@ -369,7 +402,8 @@ def check_case(case, ctx):
             fresh_compared += 1
             same, dev = _same(res, fresh)
             if not same:
-                ctx.fail("used-propagator-equals-fresh-one", where, rel_change=dev, step=step, pd=op.get("pd"))
+                ctx.fail("forms-built-from-the-same-inputs-agree" if where.startswith("lindblad-forms") else
+                         "used-propagator-equals-fresh-one", where, rel_change=dev, step=step, pd=op.get("pd"))
                 return
         if key is not None and res is not None:
             if key in memo:
